@@ -122,6 +122,17 @@ theorem shapeIter_indexes_le (shape : List Nat) (k : Nat) :
     leBounds shape (ShapeIter.steps k (ShapeIter.new shape)).indexes = true :=
   steps_leBounds shape k
 
+/-- Model fidelity: the step function written as the literal Rust loop with indexed reads and
+    writes (`indexes[D-1] += 1; for d in (1..D).rev() { … }`, `ShapeIter.nextLoop`) and the
+    structural `ShapeIter.next` all other theorems are about agree — on every state whose index
+    array is as long as the shape, in particular on every reachable state. -/
+theorem shapeIter_loop_form (shape : List Nat) (k : Nat) :
+    (ShapeIter.steps k (ShapeIter.new shape)).nextLoop =
+      (ShapeIter.steps k (ShapeIter.new shape)).next := by
+  apply nextLoop_eq_next
+  rw [(steps_spec shape k).1]
+  exact leBounds_length _ _ (steps_leBounds shape k)
+
 /-- Fused: once all `Π lengths` items have been yielded, `next` returns `None` and leaves the
     iterator as it is — so it returns `None` forever. -/
 theorem shapeIter_fused (shape : List Nat) (k : Nat) (hk : prod shape ≤ k) :
